@@ -628,6 +628,11 @@ func (gs *groupScen) checkFinalCommit(m *gmember, sr *sessRec) {
 			continue
 		}
 		if cr.e > sr.cleanupE && !cr.accepted {
+			if cr.stale && gs.c.Config.OffsetsRetryMax >= 1 {
+				// refused by a former coordinator: costs one of the Retry.Max+1 final attempts
+				gs.r.probe("final-attempt-refused-by-former-coordinator")
+				continue
+			}
 			return
 		}
 		if cr.accepted {
@@ -790,7 +795,18 @@ func (gs *groupScen) judge() {
 			// every assigned partition gets its claim unless the session was already ending: judged when the
 			// session's context stayed alive long after Setup (a claim needs a few round trips to start)
 			grace := int64(1000000 + 40*gs.c.Net.MaxUs)
-			if nf == 0 && sr.returnE != 0 && !sr.ctxDoneAtSetup && sr.ctxDoneUs-sr.setupUs > grace {
+			// (with faults in the run the rule still applies when every fault that fired was an error code
+			// answered at once: such a fault can make a claim fail to start - which must end the session - but
+			// cannot keep a claim waiting)
+			instant := true
+			for kind := range r.faults {
+				switch kind {
+				case "listoffsets-errcode", "fetch-errcode", "commit-errcode", "offsetfetch-errcode", "partial-trailing":
+				default:
+					instant = false
+				}
+			}
+			if (nf == 0 || instant) && sr.returnE != 0 && !sr.ctxDoneAtSetup && sr.ctxDoneUs-sr.setupUs > grace {
 				for t, ps := range sr.claims {
 					for _, p := range ps {
 						key := fmt.Sprintf("%s/%d", t, p)
@@ -801,7 +817,7 @@ func (gs *groupScen) judge() {
 									cls = "broker-not-connected-reported"
 								}
 							}
-							r.violateClass("C07.claim-count", cls, "member %d session %d (gen %d): no ConsumeClaim for the assigned partition %s although the session stayed alive for %d us after Setup in a fault-free run [%s]", m.idx, sr.n, sr.generation, key, sr.ctxDoneUs-sr.setupUs, cls)
+							r.violateClass("C07.claim-count", cls, "member %d session %d (gen %d): no ConsumeClaim for the assigned partition %s although the session stayed alive for %d us after Setup (no fault in the run could keep a claim waiting) [%s]", m.idx, sr.n, sr.generation, key, sr.ctxDoneUs-sr.setupUs, cls)
 						}
 					}
 				}
